@@ -298,7 +298,7 @@ func (pe *pairEnv) replay(bh PBehaviour, id string) bool {
 			if !has {
 				continue
 			}
-			got := snapP(p)
+			got := snapP(p, false)
 			if !bytes.Equal(got, want) {
 				kind := "operand-changed"
 				what := fmt.Sprintf("%s on suite %s changed register %s", st.Op, pe.key, n)
